@@ -776,14 +776,24 @@ def gen_panic_sites(repo):
 
     def q(x):
         return '"' + x.replace("\\", "\\\\").replace('"', '\\"') + '"'
+    classes = ("model", "unreachable", "internal", "environment", "reachable")
     rows = []
     for k in keys:
-        d = ledger.get(k, {})
-        rows.append(f"  ({q(k)}, {q(d.get('disposition', 'unmapped'))})")
+        disp = ledger.get(k, {}).get("disposition", "unmapped")
+        cls = disp.split(":", 1)[0].lower() if ":" in disp else "unmapped"
+        if cls not in classes:
+            cls = "unmapped"
+        rows.append(f"  ({q(k)}, SiteClass.{cls}, {q(disp)})")
+    stale = sorted(set(ledger) - set(keys))
     text = "-- GENERATED by translator/extract.py from slicec/src + translator/ledger/panic_sites.json — do not edit.\nnamespace Slicec.Gen\n" \
-           "/-- (site, disposition): `model:<branch>` the model has this outcome branch; `unreachable:<why>` shown or argued unreachable;\n" \
-           "    `internal:<why>` guards an internal invariant established by earlier phases; `unmapped` = not yet classified -/\n" \
-           "def panicSites : List (String × String) := [\n" + ",\n".join(rows) + "]\nend Slicec.Gen\n"
+           "/-- class of a panic-capable site: `model` the model has this outcome branch; `unreachable` shown or argued unreachable;\n" \
+           "    `internal` guards an invariant established by earlier phases; `environment` needs a failing output stream (outside the\n" \
+           "    property's quantifiers); `reachable` an input reaches it (a defect); `unmapped` = in the source but not in the ledger -/\n" \
+           "inductive SiteClass where\n  | model | unreachable | internal | environment | reachable | unmapped\n  deriving DecidableEq, Repr\n" \
+           "/-- (site = file::fn::normalised text, class, disposition text of the ledger) -/\n" \
+           "def panicSites : List (String × SiteClass × String) := [\n" + ",\n".join(rows) + "]\n" \
+           "/-- ledger entries whose site no longer exists in the source -/\n" \
+           "def staleLedgerKeys : List String := [" + ", ".join(q(k) for k in stale) + "]\nend Slicec.Gen\n"
     return text, len(keys)
 
 
